@@ -45,32 +45,45 @@ end SA.WireCodec
 
 namespace SA.DnsWire
 
-theorem gen_stride_57 : SA.Gen.C09.dotifyStride = 57 := by decide
+/-- the only fact about Dotify's stride the size budget needs (together with `gen_stride_le`: ≤ 63):
+    a larger stride means fewer dots -/
+theorem gen_stride_ge : 57 ≤ SA.Gen.C09.dotifyStride := by decide
 
-theorem dotifyAux57_length : ∀ (fuel : Nat) (buf : List Nat), buf.length ≤ fuel →
-    (dotifyAux 57 fuel buf).length = buf.length + (buf.length - 1) / 57 := by
+theorem dotifyAux_length (s : Nat) (hs : 0 < s) : ∀ (fuel : Nat) (buf : List Nat), buf.length ≤ fuel →
+    (dotifyAux s fuel buf).length = buf.length + (buf.length - 1) / s := by
   intro fuel
   induction fuel with
   | zero =>
     intro buf h
     have : buf = [] := List.eq_nil_of_length_eq_zero (by omega)
-    subst this; rfl
+    subst this
+    simp [dotifyAux]
   | succ fuel ih =>
     intro buf h
     unfold dotifyAux
-    by_cases hlt : 57 < buf.length
-    · have hd := ih (buf.drop 57) (by simp only [List.length_drop]; omega)
+    by_cases hlt : s < buf.length
+    · have hd := ih (buf.drop s) (by simp only [List.length_drop]; omega)
+      have hdiv : (buf.length - 1) / s = (buf.length - 1 - s) / s + 1 :=
+        Nat.div_eq_sub_div hs (by omega)
       simp only [hlt, if_true, List.length_append, List.length_cons, List.length_take, hd,
-        List.length_drop]
+        List.length_drop, hdiv]
+      have : buf.length - s - 1 = buf.length - 1 - s := by omega
+      rw [this]
       omega
     · simp only [hlt, if_false]
+      have : (buf.length - 1) / s = 0 := Nat.div_eq_of_lt (by omega)
       omega
 
-/-- Dotify adds ⌊(n−1)/57⌋ dots to n characters -/
-theorem dotify_length (buf : List Nat) : (dotify buf).length = buf.length + (buf.length - 1) / 57 := by
+/-- Dotify adds ⌊(n−1)/stride⌋ dots to n characters -/
+theorem dotify_length (buf : List Nat) :
+    (dotify buf).length = buf.length + (buf.length - 1) / SA.Gen.C09.dotifyStride := by
   unfold dotify
-  rw [gen_stride_57]
-  exact dotifyAux57_length buf.length buf (Nat.le_refl _)
+  exact dotifyAux_length _ gen_stride_pos buf.length buf (Nat.le_refl _)
+
+/-- … hence at most ⌊(n−1)/57⌋ for any stride ≥ 57 -/
+theorem dotify_length_le (buf : List Nat) : (dotify buf).length ≤ buf.length + (buf.length - 1) / 57 := by
+  rw [dotify_length]
+  exact Nat.add_le_add_left (Nat.div_le_div_left gen_stride_ge (by decide)) _
 
 /-- PrepareHostname accepts whenever data + dots + domain + 2 dots stay within HostnameMaxLen − 2 -/
 theorem prepareHostname_fits (data domain : List Nat)
@@ -83,7 +96,8 @@ theorem prepareHostname_fits (data domain : List Nat)
   by_cases hl : data.length > 60
   · simp only [hl, if_true] at h ⊢
     have : ¬ ((dotify data ++ dot :: (domain ++ [dot])).length > 251) := by
-      simp only [List.length_append, List.length_cons, List.length_nil, dotify_length]; omega
+      have := dotify_length_le data
+      simp only [List.length_append, List.length_cons, List.length_nil]; omega
     simp only [this, if_false]
     exact ⟨_, rfl⟩
   · simp only [hl, if_false] at h ⊢
